@@ -119,19 +119,26 @@ def scrub_process_env():
 # ------------------------------------------------------------------------------ build / proof status
 def run_build():
     t = time.time()
-    p = subprocess.run([os.path.join(VERIF, "tools", "build.sh"), REPO], stdout=subprocess.PIPE, stderr=subprocess.STDOUT)
+    os.makedirs(os.path.join(VERIF, "_build"), exist_ok=True)
+    prefix = os.path.join(VERIF, "_build", f"out-{os.getpid()}")
+    p = subprocess.run([os.path.join(VERIF, "tools", "build.sh"), REPO], stdout=subprocess.PIPE, stderr=subprocess.STDOUT, env=dict(os.environ, VERIF_BUILD_OUT=prefix))
     gen = {"changed": [], "errors": []}
     try:
-        with open(os.path.join(VERIF, "_build", "gen.json")) as f:
+        with open(prefix + ".gen.json") as f:
             gen = json.loads(f.read().strip().splitlines()[-1])
     except Exception as e:  # noqa
         gen = {"changed": [], "errors": [["gen_tables", f"no output: {e}"]]}
     log = ""
     try:
-        with open(os.path.join(VERIF, "_build", "build.log")) as f:
+        with open(prefix + ".log") as f:
             log = f.read()
     except OSError:
         pass
+    for ext in (".gen.json", ".log"):
+        try:
+            os.remove(prefix + ext)
+        except OSError:
+            pass
     return {"rc": p.returncode, "gen": gen, "log": log, "wall_s": time.time() - t}
 
 
@@ -182,7 +189,28 @@ def strip_coq_comments(src):
     return "".join(out)
 
 
+class build_lock:
+    """the lock tools/build.sh holds while it rewrites Gen/ and compiled files: taken for every coqc / make of a check too,
+    so that checks of different properties may run in parallel"""
+
+    def __enter__(self):
+        import fcntl
+        self.f = open(os.path.join(VERIF, ".build.lock"), "w")
+        fcntl.flock(self.f, fcntl.LOCK_EX)
+        return self
+
+    def __exit__(self, *a):
+        import fcntl
+        fcntl.flock(self.f, fcntl.LOCK_UN)
+        self.f.close()
+
+
 def proof_status(prop, extra_props=()):
+    with build_lock():
+        return _proof_status(prop, extra_props)
+
+
+def _proof_status(prop, extra_props=()):
     """Compile Props/<prop>.v (its dependencies were built by build.sh) and collect, per theorem,
     what Print Assumptions reports.  Returns dict(obligations, discharged, theorems, axioms, ok, log)."""
     res = {"obligations": 0, "discharged": 0, "theorems": [], "axioms": {}, "ok": False, "log": "", "files": []}
